@@ -32,6 +32,7 @@ Record site := mk_site { s_cell : string; s_kind : kind; s_sync : sync; s_func :
 
 (** * Components *)
 Inductive comp :=
+| Init           (* before main: package-level variable initialisers and init() *)
 | Setup          (* main goroutine: Run / cfg.run before runConduct (parsing, prepareDirs, newApp) *)
 | MainWait       (* main goroutine inside runConduct, while the play runs *)
 | CondPre        (* conduct goroutine before startAudition: openDoors, first runCleanup, makeTheater *)
@@ -49,12 +50,12 @@ Inductive comp :=
 | Any.           (* helpers callable from every goroutine at any time *)
 
 Definition all_comps : list comp :=
-  [Setup; MainWait; CondPre; CondMid; CondPost; Audition; Collector; SpotMgr; SpotReader; Prompter; Line;
+  [Init; Setup; MainWait; CondPre; CondMid; CondPost; Audition; Collector; SpotMgr; SpotReader; Prompter; Line;
    CleanupWorker; Post; Resize; Any].
 
 Definition comp_eqb (a b : comp) : bool :=
   match a, b with
-  | Setup, Setup | MainWait, MainWait | CondPre, CondPre | CondMid, CondMid | CondPost, CondPost
+  | Init, Init | Setup, Setup | MainWait, MainWait | CondPre, CondPre | CondMid, CondMid | CondPost, CondPost
   | Audition, Audition | Collector, Collector | SpotMgr, SpotMgr | SpotReader, SpotReader
   | Prompter, Prompter | Line, Line | CleanupWorker, CleanupWorker | Post, Post | Resize, Resize
   | Any, Any => true
@@ -86,7 +87,9 @@ Definition partitioned (cell : string) (c : comp) : bool :=
 (** * Happens-before between components: base edges, each created by the
     named mechanism (checked present in the source through [expected_skeleton]) *)
 Definition base_edges : list (comp * comp) :=
-  [ (Setup, MainWait);        (* program order in cfg.run: prepareDirs, newApp before runConduct *)
+  [ (Init, Setup);            (* package initialisation completes before main starts *)
+    (Init, Any);              (* ... hence before any helper can be called *)
+    (Setup, MainWait);        (* program order in cfg.run: prepareDirs, newApp before runConduct *)
     (Setup, Resize);          (* go ap.handleResize in prepareTerm (newApp) *)
     (Setup, CondPre);         (* runWorker(go) in runConduct starts conduct *)
     (Setup, CleanupWorker);
@@ -117,7 +120,7 @@ Fixpoint reach (fuel : nat) (a b : comp) : bool :=
   end.
 
 (** the transitive closure of the base edges *)
-Definition hbb (a b : comp) : bool := reach 15 a b.
+Definition hbb (a b : comp) : bool := reach 16 a b.
 
 (** * Which component runs which function.  A function literal is named
     <function>$<kind><n> (n-th literal of that kind in the function: spawn =
@@ -126,7 +129,9 @@ Definition hbb (a b : comp) : bool := reach 15 a b.
     into @pre / @mid / @post at startAudition .. wgcol.Wait(), resp. at the
     runConduct call. *)
 Definition comp_map : list (string * list comp) :=
-  [ (* main goroutine before the play *)
+  [ (* before main *)
+    ("<init>", [Init]);
+    (* main goroutine before the play *)
     ("Run", [Setup]); ("config.initArgs", [Setup]); ("config.run@pre", [Setup]);
     ("config.prepareDirs", [Setup]); ("actor.prepareActionCommands", [Setup]); ("actor.prepareScript", [Setup]);
     ("config.parseActors$value1", [Setup]); ("config.parseAudience", [Setup]);
@@ -191,6 +196,54 @@ Fixpoint comps_of_in (m : list (string * list comp)) (f : string) : list comp :=
   end.
 Definition comps_of (f : string) : list comp := comps_of_in comp_map f.
 
+(** * Classification by inheritance.  A function that [comp_map] does not
+    list runs only when it is called: if it is never used as a value nor
+    started with `go` ([esc], extracted by the translator) and every one of its
+    callers in the package is classified, it runs in (at most) the union of its
+    callers' components.  A function with no caller, with an unclassified
+    caller or one that escapes stays unclassified.  [infer] computes that; the
+    checker does not trust it but re-checks the closure ([inherit_ok]). *)
+Definition callers (calls : list (string * string)) (f : string) : list string :=
+  map fst (filter (fun e => String.eqb (snd e) f) calls).
+
+Definition mem_comp (c : comp) (l : list comp) : bool := existsb (comp_eqb c) l.
+Fixpoint dedup (l : list comp) : list comp :=
+  match l with
+  | [] => []
+  | x :: tl => if mem_comp x tl then dedup tl else x :: dedup tl
+  end.
+Definition is_nil {A} (l : list A) : bool := match l with [] => true | _ => false end.
+Definition mem_str (x : string) (l : list string) : bool := existsb (String.eqb x) l.
+
+Fixpoint infer (fuel : nat) (calls : list (string * string)) (esc : list string) (f : string) : list comp :=
+  match comps_of f with
+  | c :: cs => c :: cs
+  | [] =>
+      match fuel with
+      | O => []
+      | S n =>
+          if mem_str f esc then []
+          else
+            let parts := map (infer n calls esc) (callers calls f) in
+            if is_nil parts then []
+            else if existsb is_nil parts then []
+            else dedup (List.concat parts)
+      end
+  end.
+
+(** the classification the checker uses *)
+Definition cls (calls : list (string * string)) (esc : list string) (f : string) : list comp :=
+  infer 8 calls esc f.
+
+(** the unlisted functions the sites lie in, and their unlisted callers, upwards *)
+Fixpoint up (fuel : nat) (calls : list (string * string)) (fs : list string) : list string :=
+  match fuel with
+  | O => fs
+  | S n =>
+      let new := filter (fun c => is_nil (comps_of c)) (flat_map (callers calls) fs) in
+      match new with [] => fs | _ => fs ++ up n calls new end
+  end.
+
 (** * The synchronisation skeleton the base edges rely on, as extracted from
     the source by the translator (see the skel functions of harness/goaccess2v) *)
 Definition expected_skeleton : list string :=
@@ -250,8 +303,8 @@ Definition producers_of (cell : string) : list comp := comps_of_in producers (st
 (** * Conflicts *)
 Record esite := { e_site : site; e_comp : comp }.
 
-Definition expand (ss : list site) : list esite :=
-  flat_map (fun s => map (fun c => {| e_site := s; e_comp := c |}) (comps_of (s_func s))) ss.
+Definition expand (cl : string -> list comp) (ss : list site) : list esite :=
+  flat_map (fun s => map (fun c => {| e_site := s; e_comp := c |}) (cl (s_func s))) ss.
 
 Definition is_write (k : kind) : bool := match k with W => true | R => false end.
 Definition sync_eqb (a b : sync) : bool :=
@@ -293,40 +346,55 @@ Definition mapped (f : string) : bool := match comps_of f with [] => false | _ =
 Definition has_any (cs : list comp) : bool := existsb (comp_eqb Any) cs.
 Definition subset (a b : list comp) : bool := forallb (fun x => existsb (comp_eqb x) b) a.
 
-(** a call f -> g into a classified function: f is classified, and whatever
-    runs f may run g *)
-Definition edge_ok (e : string * string) : bool :=
+(** a call f -> g into a function listed in [comp_map]: f is classified, and
+    whatever runs f may run g *)
+Definition edge_ok (cl : string -> list comp) (e : string * string) : bool :=
   let '(f, g) := e in
-  negb (mapped g) || has_any (comps_of g) || (mapped f && subset (comps_of f) (comps_of g)).
+  negb (mapped g) || has_any (comps_of g) || (negb (is_nil (cl f)) && subset (cl f) (comps_of g)).
+
+(** an unlisted function that holds sites (or calls into one that does):
+    classified, not escaping, called from somewhere, and every caller is
+    classified within its classification and is itself listed or in [sup] *)
+Definition inherit_ok (cl : string -> list comp) (calls : list (string * string)) (esc sup : list string)
+           (f : string) : bool :=
+  negb (is_nil (cl f)) && negb (mem_str f esc) && negb (is_nil (callers calls f))
+  && forallb (fun c => negb (is_nil (cl c)) && subset (cl c) (cl f) && (mapped c || mem_str c sup)) (callers calls f).
 
 (** a write to a message field lies in a function that only producers of the
     message run *)
-Definition msg_ok (s : site) : bool :=
-  negb (sync_eqb (s_sync s) Msg) || (mapped (s_func s) && subset (comps_of (s_func s)) (producers_of (s_cell s))).
+Definition msg_ok (cl : string -> list comp) (s : site) : bool :=
+  negb (sync_eqb (s_sync s) Msg) || (negb (is_nil (cl (s_func s))) && subset (cl (s_func s)) (producers_of (s_cell s))).
 
 Definition str_pair_eqb (a b : string * string) : bool :=
   String.eqb (fst a) (fst b) && String.eqb (snd a) (snd b).
 
+Definition support (sites : list site) (calls : list (string * string)) : list string :=
+  up 8 calls (filter (fun f => is_nil (comps_of f)) (map s_func sites)).
+
 Definition full_check (sites : list site) (calls : list (string * string))
-           (skeleton tracked : list string) (aliases : list (string * string)) (messages : list string) : bool :=
-  let es := expand sites in
+           (skeleton tracked : list string) (aliases : list (string * string)) (messages esc : list string) : bool :=
+  let cl := cls calls esc in
+  let es := expand cl sites in
   forallb (fun a => forallb (pair_ok a) es) es
-  && forallb msg_ok sites
+  && forallb (msg_ok cl) sites
   && list_eqb String.eqb messages (map fst producers)
-  && forallb (fun s => mapped (s_func s)) sites
-  && forallb edge_ok calls
+  && forallb (fun s => negb (is_nil (cl (s_func s)))) sites
+  && forallb (inherit_ok cl calls esc (support sites calls)) (support sites calls)
+  && forallb (edge_ok cl) calls
   && list_eqb String.eqb skeleton expected_skeleton
   && list_eqb String.eqb tracked cells
   && list_eqb str_pair_eqb aliases expected_aliases.
 
 (** diagnostics, evaluated by the check when [full_check] fails *)
-Definition bad_pairs (sites : list site) : list (string * string * string) :=
-  let es := expand sites in
+Definition bad_pairs (cl : string -> list comp) (sites : list site) : list (string * string * string) :=
+  let es := expand cl sites in
   flat_map (fun a => flat_map (fun b => if pair_ok a b then [] else
      [(s_cell (e_site a), s_pos (e_site a) ++ " " ++ s_func (e_site a), s_pos (e_site b) ++ " " ++ s_func (e_site b))]) es) es.
-Definition unmapped_sites (sites : list site) : list (string * string) :=
-  flat_map (fun s => if mapped (s_func s) then [] else [(s_func s, s_pos s)]) sites.
-Definition bad_message_writes (sites : list site) : list (string * string) :=
-  flat_map (fun s => if msg_ok s then [] else [(s_cell s, s_pos s ++ " " ++ s_func s)]) sites.
-Definition bad_edges (calls : list (string * string)) : list (string * string) :=
-  filter (fun e => negb (edge_ok e)) calls.
+Definition unmapped_sites (cl : string -> list comp) (sites : list site) : list (string * string) :=
+  flat_map (fun s => if is_nil (cl (s_func s)) then [(s_func s, s_pos s)] else []) sites.
+Definition bad_message_writes (cl : string -> list comp) (sites : list site) : list (string * string) :=
+  flat_map (fun s => if msg_ok cl s then [] else [(s_cell s, s_pos s ++ " " ++ s_func s)]) sites.
+Definition bad_edges (cl : string -> list comp) (calls : list (string * string)) : list (string * string) :=
+  filter (fun e => negb (edge_ok cl e)) calls.
+Definition bad_inherit (cl : string -> list comp) (sites : list site) (calls : list (string * string)) (esc : list string) : list string :=
+  filter (fun f => negb (inherit_ok cl calls esc (support sites calls) f)) (support sites calls).
